@@ -294,6 +294,22 @@ func newEOFConn(c net.Conn) *eofConn {
 	return e
 }
 
+// SetReadDeadline forwards the deadline to the pipe but never fails: net.Pipe
+// refuses deadline changes once the REMOTE end is closed (a TCP socket does
+// not), and the broker's reader treats a failed SetReadDeadline as a read
+// error - the bytes this wrapper still holds (sent before the client closed)
+// would never be handed over. Found as a rare false alarm of C09 under load.
+func (e *eofConn) SetReadDeadline(t time.Time) error {
+	e.Conn.SetReadDeadline(t)
+	return nil
+}
+
+// SetDeadline: see SetReadDeadline.
+func (e *eofConn) SetDeadline(t time.Time) error {
+	e.Conn.SetDeadline(t)
+	return nil
+}
+
 func (e *eofConn) Read(p []byte) (int, error) {
 	if len(e.cur) == 0 && e.err == nil {
 		var ck eofChunk
@@ -333,13 +349,26 @@ func (e *eofConn) Read(p []byte) (int, error) {
 // DialOpt is Dial with a choice of transport: with eofWithData the server
 // side reads through a transport that may return the last bytes and the
 // end-of-stream error from the same Read call.
-func (b *Broker) DialOpt(name string, eofWithData bool) *Conn {
+func (b *Broker) DialOpt(name string, eofWithData bool) *Conn { return b.dial(name, eofWithData, false) }
+
+// DialStalled is Dial for a client that does not read from the start: the
+// broker's first write to it (the CONNACK) blocks until the client reads or
+// closes.
+func (b *Broker) DialStalled(name string) *Conn { return b.dial(name, false, true) }
+
+func (b *Broker) dial(name string, eofWithData, stalled bool) *Conn {
 	cli, srvPipe := net.Pipe()
 	var srv net.Conn = srvPipe
 	if eofWithData {
 		srv = newEOFConn(srvPipe)
 	}
-	c := &Conn{Client: wire.New(name, cli), B: b, served: make(chan struct{})}
+	var wc *wire.Client
+	if stalled {
+		wc = wire.NewStalled(name, cli)
+	} else {
+		wc = wire.New(name, cli)
+	}
+	c := &Conn{Client: wc, B: b, served: make(chan struct{})}
 	b.mu.Lock()
 	b.conns = append(b.conns, c)
 	b.mu.Unlock()
